@@ -25,6 +25,8 @@ func propC02(c *Ctx) propInfo {
 	c.floor("E7.pruned-accessors", 4)
 	c.tailZero()
 	c.hashStoreReaders()
+	c.hasherState()
+	c.cacheOnlyComplete()
 	c.levelMaskAlgebra()
 	c.maskPropagation()
 	return propInfo{
@@ -628,4 +630,41 @@ func (c *Ctx) levelMaskAlgebra() {
 		c.check(single && zero, R, "IsSignificant(level) = level == 0 || bit level-1 of the mask", f.Pos(), "single-bit test of m >> (level-1)", "levelMask.IsSignificant no longer tests exactly one bit of the mask (forms like 'any bit at or above' or 'any bit below' agree with it only for masks without a gap): cells with mask 0b10 or 0b101 get an extra or a missing hash and a wrong descriptor byte")
 	}
 	c.floor(R, 4)
+}
+
+// cacheOnlyComplete: the cell -> immutable-cell cache is shared by every call through one Hasher.
+// An entry is stored only when the value is complete: no failure return is reachable after the store,
+// otherwise a later call finds a half-built entry (no hashes, no depths) and indexes into nothing.
+func (c *Ctx) cacheOnlyComplete() {
+	const R = "E10.cache-complete"
+	f := c.mustFn(R, "boc", "newImmutableCell")
+	if f == nil {
+		return
+	}
+	n := 0
+	okv := true
+	where := ""
+	allInstrs(f, func(b *ssa.BasicBlock, in ssa.Instruction) {
+		mu, ok := in.(*ssa.MapUpdate)
+		if !ok || mu.Map != ssa.Value(f.Params[1]) {
+			return
+		}
+		n++
+		reach := reachableFrom(b, nil)
+		reach[b] = true
+		for _, r := range returnsOf(f) {
+			if !reach[r.Block()] {
+				continue
+			}
+			if r.Block() == b && !before(mu, r) {
+				continue
+			}
+			if classifyErr(f, retVal(r, 1), r.Block(), 0) != errNil {
+				okv = false
+				where = c.rel(r.Pos())
+			}
+		}
+	})
+	c.check(okv && n == 1, R, "newImmutableCell caches an entry only when it is complete", f.Pos(), "cache[c] = imm right before the success return", "newImmutableCell stores the entry in the shared cache before it is complete: the failure return at "+where+" leaves a half-built entry behind, and the next Hash of that cell (or of an ancestor) through the same Hasher indexes its empty hash list and panics")
+	c.floor(R, 1)
 }
